@@ -52,6 +52,11 @@ def oracle(tier):
                     exp = (t, ns, g, ew, sc, f'{t}{ns}', f'{g}{ew}', f'{sc:02d}', f'{t}{ns}{g}{ew}')
                     if got != exp:
                         fail('decompose', want, got, exp)
+                    if isinstance(et, str) and has_dir:      # the same with ocr_scrub on: digits stay digits, the direction letter stays a direction
+                        n += 1
+                        o2 = H.call(pytrs.TRS.from_twprgesec, et, er, es, ns, ew, True)
+                        if isinstance(o2, H.Exn) or o2.trs != want:
+                            fail('roundtrip_ocr_scrub', [et, er, es, ns, ew, True], getattr(o2, 'trs', o2), want)
                     again = pytrs.TRS(obj.trs)
                     if again.trs != obj.trs or again != obj or hash(again) != hash(obj):
                         fail('idempotent', obj.trs, again.trs, obj.trs)
@@ -76,6 +81,22 @@ def oracle(tier):
             g2 = H.call(lambda: pytrs.TRS(got).trs)
             if g2 != got:
                 fail('idempotent', got, g2, got)
+    # the same strings again WITHOUT clearing the cache, each preceded by its case variants: the result depends on the string alone
+    pytrs.TRS._clear_cache()
+    for x in strings[::3] + ['', '___Z___Z__', 'XXXz12e07', 'xxxz12e07', '___z___z__', '154n97wXX', '154n97wxx']:
+        for v in (x.upper(), x.lower(), x.swapcase()):
+            H.call(lambda: pytrs.TRS(v).trs)
+        n += 1
+        got = H.call(lambda: pytrs.TRS(x).trs)
+        e = expected_trs(x)
+        if isinstance(e, tuple):
+            twp, rge, sec = e
+            want = (twp.lower() if twp[0] not in 'X_' else twp) + (rge.lower() if rge[0] not in 'X_' else rge) + (sec or 'XX')
+        else:
+            want = e
+        if got != want:
+            fail('strict_after_case_variants', x, got, want)
+    pytrs.TRS._clear_cache()
     # components: placeholder / junk in one position, others kept
     for junk, ph in [('abc', 'XXXz'), ('XXXz', 'XXXz'), ('___z', '___z'), (None, '___z'), ('', '___z'), ('1234', 'XXXz')]:
         n += 2
